@@ -66,4 +66,19 @@ mod tests {
 pub mod verif_export {
     pub use crate::checkpoints::WorkspaceCheckpointHook;
     pub use crate::session::verif_hooks as session;
+    pub use crate::tasks::verif_hooks as tasks;
+
+    /// The HTTP router over a fresh engine (no provider configured).
+    pub fn build_app(
+        data_dir: std::path::PathBuf,
+        workspace_root: std::path::PathBuf,
+        allow_pty_tasks: bool,
+    ) -> axum::Router {
+        crate::server::build_app_with_workspace_root_and_provider_and_task_policy(
+            data_dir,
+            workspace_root,
+            None,
+            allow_pty_tasks,
+        )
+    }
 }
